@@ -1,6 +1,6 @@
 """C10 -- reflowing to a maximum line length preserves meaning and honours the limit."""
 import re
-from vfy.lemma import lemma, P, Duck
+from vfy.lemma import lemma, P, Duck, give_up
 from vfy.lemmas.common import S, all_in, by, fixed, cp_in
 from mistletoe.markdown_renderer import MarkdownRenderer, Fragment
 
@@ -163,6 +163,8 @@ def w3_budget(L: int, prepend: int, indentation: int, nlead: int, normalize: boo
     finally:
         block_token.reset_tokens()
         span_token.reset_tokens()
+    if len(seen) == 0:
+        give_up('blocks_to_lines was not called')
     if len(seen) != 1:
         return False
     child = seen[0]
